@@ -27,7 +27,7 @@ ASSUMPTIONS = [
     "are not compared",
     "exponents are small integers (at most two ** per expression) so that even a mis-grouped tower stays bounded",
 ]
-MIN_MONITORS = {"value": 30000, "print-text": 30000, "redundant-parens": 12000, "expected-error": 2500, "in-type-position": 900}
+MIN_MONITORS = {"value": 30000, "print-text": 30000, "redundant-parens": 12000, "expected-error": 2500, "in-type-position": 900, "operand-order": 3000}
 THOROUGH_MIN_SCALE = 8
 
 
@@ -155,6 +155,50 @@ def judge(ctx, pydsdl, tree, text, ref, got_val, got_print, exc, case):
             ctx.violation("C04/foreign-exception", "%s raised %r instead of InvalidDefinitionError" % (text, exc), case)
 
 
+EQUAL_SPELLINGS = [("K", "\u212a"), (";", "\u037e"), ("`", "\u1fef"), ("\u03a9", "\u2126"), ("\u00e9", "e\u0301"), ("\u00c5", "\u212b"), ("\uac00", "\u1100\u1161"),
+                   ("\u00c5", "A\u030a"), ("a", "a")]
+
+
+def operand_order(ctx, pydsdl, rng, workdir):
+    """
+    Set literals are unordered and | & ^ are commutative: swapping the operands - here two spellings of one string (equal under
+    canonical composition, which is how DSDL compares strings) - may change neither the outcome nor any text derived from the result.
+    """
+    def q(x):
+        return "'%s'" % "".join(ch if (32 < ord(ch) < 127 and ch not in "'\\") else "\\u%04x" % ord(ch) for ch in x)
+
+    a, b = rng.choice(EQUAL_SPELLINGS)
+    if rng.random() < 0.5:
+        a, b = b, a
+    A, B = q(a), q(b)
+    form = rng.choice(["{%s, %s}", "({%s} | {%s})", "({%s, 'zz'} & {%s, 'yy'})", "({%s, 'q'} ^ {'q', 'r'} ^ {%s, 'r'} | {%s})".replace("| {%s}", "| {'q'}"), "{{%s}, {%s}}", "{{%s, 'w'}, {'w', %s}}",
+                       "({%s} | {'m'} | {%s})"])
+    use = rng.choice(["@print E", "@print E.count", "uint8 X = E.min", "uint8 X = E.max", "@print E.min", "@assert E == E", "@print E == F"])
+    if "{{" in form and ".m" in use:
+        use = "@print E"
+    e1, e2 = form % (A, B), form % (B, A)
+    outs = []
+    for e, f in ((e1, e2), (e2, e1)):
+        body = use.replace("E", e).replace("F", f) + "\n@sealed\n"
+        root = workdir / "c04o" / "ons"
+        shutil.rmtree(workdir / "c04o", ignore_errors=True)
+        root.mkdir(parents=True)
+        (root / "O.1.0.dsdl").write_text(body, encoding="utf-8")
+        prints = []
+        try:
+            pydsdl.read_namespace(root, [], print_output_handler=lambda p_, l_, t_: prints.append(t_))
+            outs.append(("ok", prints, body))
+        except pydsdl.InvalidDefinitionError as ex:
+            outs.append((type(ex).__name__, prints, body))
+        finally:
+            shutil.rmtree(workdir / "c04o", ignore_errors=True)
+    ctx.mon("operand-order")
+    ctx.case(("operand-order", a, b, form, use), True, classes=["operand-order"])
+    if outs[0][:2] != outs[1][:2]:
+        ctx.violation("C04/operand-order", "swapping the operands of a set literal / commutative set operator changes the result: %r -> %s %r, but %r -> %s %r" % (
+            outs[0][2].split("\n")[0], outs[0][0], outs[0][1], outs[1][2].split("\n")[0], outs[1][0], outs[1][1]), {"operand_order": [outs[0][2], outs[1][2]]})
+
+
 def run_batch(ctx, pydsdl, rec, workdir, items):
     """items: list of (tree, text, ref, kind). All expected to be accepted (value/unspecified)."""
     texts = [it[1] for it in items]
@@ -244,6 +288,8 @@ def run_shard(ctx):
                 run_batch(ctx, pydsdl, rec, ctx.tmp, items)
                 if rng.random() < 0.5:
                     in_type_position(ctx, pydsdl, rng, ctx.tmp)
+                for _ in range(3):
+                    operand_order(ctx, pydsdl, rng, ctx.tmp)
         except CaseTimeout:
             ctx.inconclusive_case("watchdog", {"texts": [it[1] for it in items][:5]})
     for _ in range(ctx.share(ctx.params["n_error"])):
@@ -303,6 +349,19 @@ def fix_tree(t):
 
 def replay(ctx, case):
     pydsdl = import_pydsdl()
+    if "operand_order" in case:
+        for body in case["operand_order"]:
+            root = ctx.tmp / "c04o" / "ons"
+            shutil.rmtree(ctx.tmp / "c04o", ignore_errors=True)
+            root.mkdir(parents=True)
+            (root / "O.1.0.dsdl").write_text(body, encoding="utf-8")
+            prints = []
+            try:
+                pydsdl.read_namespace(root, [], print_output_handler=lambda p_, l_, t_: prints.append(t_))
+                print(repr(body), "-> ok", prints)
+            except pydsdl.InvalidDefinitionError as ex:
+                print(repr(body), "->", repr(ex), prints)
+        return
     rec = Recorder(pydsdl)
     tree = fix_tree(case["tree"])
     try:
